@@ -240,34 +240,43 @@ def solveOn (solve : List (List α) → List α → Option (List α))
     (A : List (List α)) (b : List α) (idx : List Nat) : Option (List α) :=
   solve (subMat A idx) (gather b idx)
 
-/-- `fix_constraint_cholesky` -/
-def fixConstraint (solve : List (List α) → List α → Option (List α))
-    (A : List (List α)) (b : List α) (tol : α) (st : St α) : Option (St α) :=
-  -- q = P * (s_chol <= tolerance);  step = d[q] - s_chol[q]
-  -- ratio = d[q] / step where step != 0, else 0 (fixes/D4b);  alpha = np.min(ratio)
-  let ratios := (List.zip (List.zip st.d st.s) st.P).filterMap fun x =>
+/-- `fix_constraint_cholesky`, first half: the step length
+    `q = P * (s_chol <= tolerance)`; `step = d[q] - s_chol[q]`;
+    `ratio = d[q] / step` where `step != 0`, else 0 (fixes/D4b); `alpha = np.min(ratio)` -/
+def fcAlpha (tol : α) (st : St α) : α :=
+  minimum ((List.zip (List.zip st.d st.s) st.P).filterMap fun x =>
     if x.2 && decide (x.1.2 ≤ tol) then
       some (if x.1.1 - x.1.2 = 0 then 0 else x.1.1 / (x.1.1 - x.1.2))
-    else none
-  let alpha := minimum ratios
-  -- d = d + alpha * (s_chol - d)
-  let d := List.zipWith (fun di si => di + alpha * (si - di)) st.d st.s
-  -- id_delete = np.where(d[P_inorder] <= tolerance)[0];  P_inorder = np.delete(P_inorder, id_delete)
-  let Pin := st.Pin.filter fun i => !(decide (vget d i ≤ tol))
-  -- P[d <= tolerance] = False
-  let P := List.zipWith (fun p di => if di ≤ tol then false else p) st.P d
-  -- if len(P_inorder): s_chol[P_inorder] = cho_solve((U, False), ZTx[P_inorder])
-  let s? : Option (List α) :=
-    if Pin.isEmpty then some st.s
-    else match solveOn solve A b Pin with
-      | none => none
-      | some x => some (scatter st.s Pin x)
-  match s? with
-  | none => none
-  | some s1 =>
-    -- s_chol[~P] = 0.0
-    let s := List.zipWith (fun si p => if p then si else 0) s1 P
-    some { st with P := P, Pin := Pin, s := s, d := d }
+    else none)
+
+/-- `d = d + alpha * (s_chol - d)` -/
+def fcD (tol : α) (st : St α) : List α :=
+  List.zipWith (fun di si => di + fcAlpha tol st * (si - di)) st.d st.s
+
+/-- `id_delete = np.where(d[P_inorder] <= tolerance)[0]`; `P_inorder = np.delete(P_inorder, id_delete)` -/
+def fcPin (tol : α) (Pin : List Nat) (d : List α) : List Nat :=
+  Pin.filter fun i => !(decide (vget d i ≤ tol))
+
+/-- `P[d <= tolerance] = False` -/
+def fcP (tol : α) (P : List Bool) (d : List α) : List Bool :=
+  List.zipWith (fun p di => if di ≤ tol then false else p) P d
+
+/-- `s_chol[~P] = 0.0` -/
+def fcS (s : List α) (P : List Bool) : List α :=
+  List.zipWith (fun si p => if p then si else 0) s P
+
+/-- `fix_constraint_cholesky`: step towards `s_chol` as far as feasibility allows, drop the entries that
+    reached (≤ tolerance) zero from `P` / `P_inorder` (`choldeleteindexes` updates `U` accordingly), and
+    re-solve on the remaining passive list (`if len(P_inorder): s_chol[P_inorder] = cho_solve(...)`). -/
+def fixConstraint (solve : List (List α) → List α → Option (List α))
+    (A : List (List α)) (b : List α) (tol : α) (st : St α) : Option (St α) :=
+  let d := fcD tol st
+  let Pin := fcPin tol st.Pin d
+  let P := fcP tol st.P d
+  if Pin.isEmpty then some { st with P := P, Pin := Pin, s := fcS st.s P, d := d }
+  else match solveOn solve A b Pin with
+    | none => none
+    | some x => some { st with P := P, Pin := Pin, s := fcS (scatter st.s Pin x) P, d := d }
 
 /-- the inner `while np.any(P) and np.min(s_chol[P]) <= tolerance:` loop -/
 def innerLoop (solve : List (List α) → List α → Option (List α))
